@@ -135,6 +135,25 @@ structure Beh where
   ctor : Nat → Nat → Outcome := fun _ _ => .ok
   close : Nat → Nat → Bool := fun _ _ => false    -- true = Close returns an error
 
+/-! ### small state updates -/
+
+def bumpInv (st : State) (c : Nat) : State :=
+  { st with invs := fun x => if x = c then st.invs c + 1 else st.invs x }
+
+def logEv (st : State) (e : Event) : State := { st with log := st.log ++ [e] }
+
+/-- hand out `k` fresh instance ids, produced by invocation `n` of constructor `c` -/
+def alloc (st : State) (k c n : Nat) : State :=
+  { st with next := st.next + k,
+            instMeta := fun i => if st.next ≤ i ∧ i < st.next + k then (c, n) else st.instMeta i }
+
+def okOr {α} (r : Except Err Unit) (v : α) : Except Err α :=
+  match r with
+  | .ok _ => .ok v
+  | .error e => .error e
+
+def logClosed (st : State) (owner : Nat) (i : Inst) (ok : Bool) : State := logEv st (.closed owner i ok)
+
 /-! ### ownership: `setInstance` / `track` / `shareInstance` -/
 
 /-- `scope.track` (scope.go:401-419) -/
@@ -143,7 +162,7 @@ def track (st : State) (s : Nat) (v : Val) (disp : Bool) : State × Except Err U
   | .inst i =>
     if (st.scope s).disposed then
       -- the late instance is disposed right away
-      (if disp then { st with log := st.log ++ [.closed s i true] } else st, .error [.scopeDisposed])
+      (if disp then logClosed st s i true else st, .error [.scopeDisposed])
     else if disp then
       (updScope st s (fun sc => { sc with disposables := some ((sc.disposables.getD []) ++ [i]) }), .ok ())
     else (st, .ok ())
@@ -192,12 +211,12 @@ def allocOuts (next : Inst) (n : Nat) : List Inst := (List.range n).map (· + ne
 def storeOuts (st : State) (s : Nat) (sibs : List Desc) (outs : List Inst) : State × Except Err Unit :=
   match sibs, outs with
   | d :: ds, o :: os =>
-    let (st1, r1) := setInstance st s d d.ident (.inst o)
-    let (st2, r2) := storeOuts st1 s ds os
-    match r1, r2 with
-    | _, .error e => (st2, .error e)       -- Go keeps the last tracking error
-    | .error e, .ok _ => (st2, .error e)
-    | .ok _, .ok _ => (st2, .ok ())
+    let r1 := setInstance st s d d.ident (.inst o)
+    let r2 := storeOuts r1.1 s ds os
+    (r2.1, match r1.2, r2.2 with
+      | _, .error e => .error e       -- Go keeps the last tracking error
+      | .error e, .ok _ => .error e
+      | .ok _, .ok _ => .ok ())
   | _, _ => (st, .ok ())
 
 def shareAll (st : State) (s : Nat) (self : Nat) (sibs : List Desc) (v : Val) : State :=
@@ -245,10 +264,11 @@ def resolveMembers (beh : Beh) : Nat → State → Nat → List Desc → List In
   | 0, st, _, _, _ => (st, .error [.fuel])
   | _+1, st, _, [], acc => (st, .ok (.group acc))
   | f+1, st, s, d :: ds, acc =>
-    match resolveDesc beh f st s d with
-    | (st1, .ok (.inst i)) => resolveMembers beh f st1 s ds (acc ++ [i])
-    | (st1, .ok _) => resolveMembers beh f st1 s ds acc
-    | (st1, .error e) => (st1, .error (.resolution :: e))
+    let r := resolveDesc beh f st s d
+    match r.2 with
+    | .ok (.inst i) => resolveMembers beh f r.1 s ds (acc ++ [i])
+    | .ok _ => resolveMembers beh f r.1 s ds acc
+    | .error e => (r.1, .error (.resolution :: e))
 
 /-- `buildArguments` / `BuildParamObject` (builders.go): one dependency after the other -/
 def buildArgs (beh : Beh) : Nat → State → Nat → List Dep → List Val → State × Except Err (List Val)
@@ -256,11 +276,11 @@ def buildArgs (beh : Beh) : Nat → State → Nat → List Dep → List Val → 
   | _+1, st, _, [], acc => (st, .ok acc)
   | f+1, st, s, dep :: deps, acc =>
     let r := if dep.grp != 0 then getGroup beh f st s dep.ty dep.grp else resolve beh f st s dep.ty dep.key
-    match r with
-    | (st1, .ok v) => buildArgs beh f st1 s deps (acc ++ [v])
-    | (st1, .error e) =>
-      if dep.optional && !isConstruction e then buildArgs beh f st1 s deps (acc ++ [.zero])
-      else (st1, .error e)
+    match r.2 with
+    | .ok v => buildArgs beh f r.1 s deps (acc ++ [v])
+    | .error e =>
+      if dep.optional && !isConstruction e then buildArgs beh f r.1 s deps (acc ++ [.zero])
+      else (r.1, .error e)
 
 /-- `scope.createInstance` (scope.go:507-743) -/
 def createInstance (beh : Beh) : Nat → State → Nat → Desc → State × Except Err Val
@@ -268,44 +288,38 @@ def createInstance (beh : Beh) : Nat → State → Nat → Desc → State × Exc
   | f+1, st, s, d =>
     match d.kind with
     | .inst v =>
-      match setInstance st s d d.ident (.inst v) with
-      | (st1, .ok _) => (st1, .ok (.inst v))
-      | (st1, .error e) => (st1, .error e)
+      let r := setInstance st s d d.ident (.inst v)
+      (r.1, okOr r.2 (.inst v))
     | _ =>
-      match buildArgs beh f st s d.deps [] with
-      | (st1, .error e) => (st1, .error (.invocation :: e))
-      | (st1, .ok args) =>
-        let n := st1.invs d.ctor + 1
-        let st2 := { st1 with invs := fun c => if c = d.ctor then n else st1.invs c }
+      let ra := buildArgs beh f st s d.deps []
+      match ra.2 with
+      | .error e => (ra.1, .error (.invocation :: e))
+      | .ok args =>
+        let st2 := bumpInv ra.1 d.ctor
+        let n := st2.invs d.ctor
         match beh.ctor d.ctor n with
-        | .err => ({ st2 with log := st2.log ++ [.ctorFail d.id d.ctor n s .err] }, .error [.invocation, .injected d.ctor])
-        | .panic => ({ st2 with log := st2.log ++ [.ctorFail d.id d.ctor n s .panic] }, .error [.panicL])
-        | .nilOut => ({ st2 with log := st2.log ++ [.ctorFail d.id d.ctor n s .nilOut] }, .error [.validation])
+        | .err => (logEv st2 (.ctorFail d.id d.ctor n s .err), .error [.invocation, .injected d.ctor])
+        | .panic => (logEv st2 (.ctorFail d.id d.ctor n s .panic), .error [.panicL])
+        | .nilOut => (logEv st2 (.ctorFail d.id d.ctor n s .nilOut), .error [.validation])
         | .ok =>
           let sibs := (d.sibs.filterMap (findDesc st2.descs))
           match d.kind with
           | .void =>
-            let st3 := { st2 with log := st2.log ++ [.ctor d.id d.ctor n s args []] }
-            match setInstance st3 s d d.ident .unit with
-            | (st4, .ok _) => (st4, .ok .unit)
-            | (st4, .error e) => (st4, .error e)
+            let r := setInstance (logEv st2 (.ctor d.id d.ctor n s args [])) s d d.ident .unit
+            (r.1, okOr r.2 .unit)
           | .multi =>
             let sibs' := if sibs.isEmpty then [d] else sibs
             let outs := allocOuts st2.next sibs'.length
-            let st3 := { st2 with next := st2.next + sibs'.length,
-                                  instMeta := fun i => if i ∈ outs then (d.ctor, n) else st2.instMeta i,
-                                  log := st2.log ++ [.ctor d.id d.ctor n s args outs] }
-            match storeOuts st3 s sibs' outs with
-            | (st4, .error e) => (st4, .error e)
-            | (st4, .ok _) => (st4, .ok (.inst (outs.getD (idxOfDesc sibs' d.id) 0)))
+            let st3 := logEv (alloc st2 sibs'.length d.ctor n) (.ctor d.id d.ctor n s args outs)
+            let r := storeOuts st3 s sibs' outs
+            (r.1, okOr r.2 (.inst (outs.getD (idxOfDesc sibs' d.id) 0)))
           | _ =>
             let i := st2.next
-            let st3 := { st2 with next := i + 1,
-                                  instMeta := fun j => if j = i then (d.ctor, n) else st2.instMeta j,
-                                  log := st2.log ++ [.ctor d.id d.ctor n s args [i]] }
-            match setInstance st3 s d d.ident (.inst i) with
-            | (st4, .error e) => (st4, .error e)
-            | (st4, .ok _) => (shareAll st4 s d.id sibs (.inst i), .ok (.inst i))
+            let st3 := logEv (alloc st2 1 d.ctor n) (.ctor d.id d.ctor n s args [i])
+            let r := setInstance st3 s d d.ident (.inst i)
+            match r.2 with
+            | .error e => (r.1, .error e)
+            | .ok _ => (shareAll r.1 s d.id sibs (.inst i), .ok (.inst i))
 end
 
 /-- enough fuel for every acyclic configuration: each level of the dependency nesting spends a
@@ -321,17 +335,30 @@ def runInitializers (beh : Beh) (st : State) (s : Nat) : List Nat → State × E
     match findDesc st.descs id with
     | none => runInitializers beh st s rest
     | some d =>
-      match createInstance beh (fuelFor st) st s d with
-      | (st1, .ok _) => runInitializers beh st1 s rest
-      | (st1, .error e) => (st1, .error (.resolution :: e))
+      let r := createInstance beh (fuelFor st) st s d
+      match r.2 with
+      | .ok _ => runInitializers beh r.1 s rest
+      | .error e => (r.1, .error (.resolution :: e))
 
+/-- `for i := len(disposables)-1; i >= 0; i-- { disposables[i].Close() }` on the reversed list -/
 def closeLoop (beh : Beh) (owner : Nat) (st : State) : List Inst → State × Bool
   | [] => (st, false)
   | i :: rest =>
-    let (c, n) := st.instMeta i
-    let bad := beh.close c n
-    let (st1, b1) := closeLoop beh owner { st with log := st.log ++ [.closed owner i (!bad)] } rest
-    (st1, bad || b1)
+    let bad := beh.close (st.instMeta i).1 (st.instMeta i).2
+    let r := closeLoop beh owner (logClosed st owner i (!bad)) rest
+    (r.1, bad || r.2)
+
+def markDisposed (st : State) (s : Nat) : State := updScope st s (fun sc => { sc with disposed := true })
+def takeChildren (st : State) (s : Nat) : State := updScope st s (fun sc => { sc with children := none })
+def takeDisposables (st : State) (s : Nat) : State := updScope st s (fun sc => { sc with disposables := none })
+def dropInstances (st : State) (s : Nat) : State := updScope st s (fun sc => { sc with instances := none })
+
+/-- `delete(parent.children, s)`; `delete(provider.scopes, s)` — no-ops on tables that are nil -/
+def detach (st : State) (s : Nat) : State :=
+  let st1 := match (st.scope s).parent with
+    | some p => updScope st p (fun sc => { sc with children := sc.children.map (fun (l : List Nat) => List.erase l s) })
+    | none => st
+  { st1 with provScopes := st1.provScopes.map (fun (l : List Nat) => List.erase l s) }
 
 mutual
 /-- `scope.Close` (scope.go:249-321); `order` chooses the iteration order of each children map -/
@@ -339,27 +366,19 @@ def closeScope (beh : Beh) (order : List Nat → List Nat) : Nat → State → N
   | 0, st, _ => (st, false)
   | f+1, st, s =>
     if (st.scope s).disposed then (st, false) else
-    let st1 := updScope st s (fun sc => { sc with disposed := true })
-    let kids := order ((st1.scope s).children.getD [])
-    let st2 := updScope st1 s (fun sc => { sc with children := none })
-    let (st3, e1) := closeChildren beh order f st2 kids
-    let ds := (st3.scope s).disposables.getD []
-    let st4 := updScope st3 s (fun sc => { sc with disposables := none })
-    let (st5, e2) := closeLoop beh s st4 ds.reverse
-    let st6 := match (st5.scope s).parent with
-      | some p => updScope st5 p (fun sc => { sc with children := sc.children.map (fun (l : List Nat) => List.erase l s) })
-      | none => st5
-    let st7 := { st6 with provScopes := st6.provScopes.map (fun (l : List Nat) => List.erase l s) }
-    let st8 := updScope st7 s (fun sc => { sc with instances := none })
-    (st8, e1 || e2)
+    let kids := order ((st.scope s).children.getD [])
+    let r1 := closeChildren beh order f (takeChildren (markDisposed st s) s) kids
+    let ds := (r1.1.scope s).disposables.getD []
+    let r2 := closeLoop beh s (takeDisposables r1.1 s) ds.reverse
+    (dropInstances (detach r2.1 s) s, r1.2 || r2.2)
 
 def closeChildren (beh : Beh) (order : List Nat → List Nat) : Nat → State → List Nat → State × Bool
   | 0, st, _ => (st, false)
   | _+1, st, [] => (st, false)
   | f+1, st, c :: rest =>
-    let (st1, e1) := closeScope beh order f st c
-    let (st2, e2) := closeChildren beh order f st1 rest
-    (st2, e1 || e2)
+    let r1 := closeScope beh order f st c
+    let r2 := closeChildren beh order f r1.1 rest
+    (r2.1, r1.2 || r2.2)
 end
 
 def closeFuel (st : State) : Nat := 2 * st.nscopes + 4
@@ -403,15 +422,13 @@ def scopeCreateScope (beh : Beh) (st : State) (p : Nat) (ctx : Nat) : State × E
 /-- `provider.Close` (provider.go) -/
 def closeProvider (beh : Beh) (order : List Nat → List Nat) (st : State) : State × Bool :=
   if st.disposed then (st, false) else
-  let st1 := { st with disposed := true }
-  let scopes := order (st1.provScopes.getD [])
-  let st2 := { st1 with provScopes := none }
-  let (st3, e1) := closeChildren beh order (closeFuel st2 + scopes.length + 2) st2 scopes
-  let (st4, e2) := closeScope beh order (closeFuel st3) st3 rootScope
-  let ds := st4.provDisposables.getD []
-  let st5 := { st4 with provDisposables := none }
-  let (st6, e3) := closeLoop beh providerOwner st5 ds.reverse
-  ({ st6 with singletons := [], initializers := [] }, e1 || e2 || e3)
+  let scopes := order (st.provScopes.getD [])
+  let st2 := { st with disposed := true, provScopes := none }
+  let r1 := closeChildren beh order (closeFuel st2 + scopes.length + 2) st2 scopes
+  let r2 := closeScope beh order (closeFuel r1.1) r1.1 rootScope
+  let ds := r2.1.provDisposables.getD []
+  let r3 := closeLoop beh providerOwner { r2.1 with provDisposables := none } ds.reverse
+  ({ r3.1 with singletons := [], initializers := [] }, r1.2 || r2.2 || r3.2)
 
 /-! ### entry points (the disposed checks of `provider.Get*`) -/
 
@@ -438,9 +455,10 @@ def createSingletons (beh : Beh) (st : State) : List Nat → State × Except Err
       if d.life != .singleton then createSingletons beh st rest
       else if (lookup st.singletons d.ident).isSome then createSingletons beh st rest
       else
-        match createInstance beh (fuelFor st) st rootScope d with
-        | (st1, .ok _) => createSingletons beh st1 rest
-        | (st1, .error e) => (st1, .error (.resolution :: e))
+        let r := createInstance beh (fuelFor st) st rootScope d
+        match r.2 with
+        | .ok _ => createSingletons beh r.1 rest
+        | .error e => (r.1, .error (.resolution :: e))
 
 def isInitializer (d : Desc) : Bool := d.life == .scoped && d.kind == .void
 
